@@ -53,6 +53,8 @@ fn registry() -> Vec<Prop> {
         prop!("C11", c11),
         prop!("C12", c12, native_ints),
         prop!("C13", c13, native),
+        prop!("C14", c14),
+        prop!("C15", c15, native),
         // REGISTRY-END
     ]
 }
